@@ -741,7 +741,27 @@ func (g *gen) tokenEvent() {
 	if len(cs) == 0 {
 		return
 	}
-	c := pick(g.r, cs)
+	cid := pick(g.r, cs).cid
+	// a token event may also address the temporary connection of an HTTP request in flight
+	if g.r.chance(1, 3) {
+		var pending []string
+		for _, h := range g.w.https {
+			select {
+			case <-h.done:
+			default:
+				for real, name := range g.w.cidName {
+					if name == h.conn {
+						pending = append(pending, real)
+					}
+				}
+			}
+		}
+		if len(pending) > 0 {
+			sort.Strings(pending)
+			cid = pick(g.r, pending)
+			g.kinds["token:http-conn"]++
+		}
+	}
 	g.tokN++
 	tok := fmt.Sprintf(`{"u":%d}`, g.tokN)
 	if g.r.chance(1, 5) {
@@ -752,7 +772,7 @@ func (g *gen) tokenEvent() {
 		tid = pick(g.r, []string{"T1", "T2"})
 	}
 	g.kinds["token"]++
-	g.w.publish("conn."+c.cid+".token", fmt.Sprintf(`{"token":%s,"tid":%q}`, tok, tid))
+	g.w.publish("conn."+cid+".token", fmt.Sprintf(`{"token":%s,"tid":%q}`, tok, tid))
 }
 
 func (g *gen) reset() {
@@ -949,6 +969,49 @@ func (g *gen) orderRun() {
 	g.drain()
 }
 
+// deleteRun: a resource held both directly and through a parent is deleted, subscribed again
+// (possibly after the service re-created it) and then everything is released in some order: nothing
+// may stay behind in the connection or in the cache (C09, C11, C02).
+func (g *gen) deleteRun() {
+	cs := g.liveClients()
+	if len(cs) == 0 {
+		return
+	}
+	c := cs[0]
+	w := g.w
+	g.kinds["delete-run"]++
+	parent, child := "m.n1", "m.l1"
+	if g.r.chance(1, 2) {
+		w.request(c, "subscribe."+child, "")
+		w.request(c, "subscribe."+parent, "")
+	} else {
+		w.request(c, "subscribe."+parent, "")
+		w.request(c, "subscribe."+child, "")
+	}
+	g.drain()
+	tr := w.truth.get(child, "")
+	if tr == nil || w.stall != "" {
+		return
+	}
+	tr.deleted = true
+	w.publish("event."+child+".delete", "")
+	if g.r.chance(2, 3) {
+		tr.deleted = false // the service created it again
+	}
+	w.request(c, "subscribe."+child, "")
+	if g.r.chance(1, 2) {
+		g.drain()
+	}
+	steps := []string{"unsubscribe." + parent, "unsubscribe." + child, "subscribe." + child, "unsubscribe." + child}
+	for i := 0; i < 3; i++ {
+		w.request(c, pick(g.r, steps), "")
+		if g.r.chance(1, 2) {
+			g.drain()
+		}
+	}
+	g.drain()
+}
+
 // refBurst: one change event adds five uncached references to a model held by one connection.
 // All of them are loaded under the subscription's reference throttle: at no moment may more
 // than `limit` of their get requests be outstanding (C19), and all must eventually be sent.
@@ -1054,6 +1117,9 @@ func runHistory(p profile, seed uint64, index int, keepSteps bool, wantSnap bool
 	}
 	if p.name == "order" && r.chance(1, 5) {
 		g.orderRun()
+	}
+	if p.name == "churn" && r.chance(1, 6) {
+		g.deleteRun()
 	}
 	if p.name == "throttle" && cfg.referenceThrottle > 0 && r.chance(1, 4) {
 		g.refBurst(cfg.referenceThrottle)
